@@ -15,8 +15,23 @@ pub trait Hx {
     fn rst(&mut self);
     fn cl(&self) -> Box<dyn Hx>;
     fn chain_fin(self: Box<Self>, d: &[u8]) -> Vec<u8>;
+    /// `Digest::digest(msg)`: the one-call convenience constructor + update + finalize
+    fn static_digest(&self, d: &[u8]) -> Vec<u8>;
+    /// `{:?}` must not panic
+    fn debug_string(&self) -> String;
+    /// (BlockInput::BlockSize, OutputSize)
+    fn sizes(&self) -> (usize, usize);
 }
-impl<D: Digest + digest::FixedOutput + digest::FixedOutputDirty + digest::Reset + Clone + 'static> Hx for D {
+impl<D: Digest + digest::FixedOutput + digest::FixedOutputDirty + digest::Reset + digest::BlockInput + core::fmt::Debug + Clone + 'static> Hx for D {
+    fn static_digest(&self, d: &[u8]) -> Vec<u8> {
+        <D as Digest>::digest(d).to_vec()
+    }
+    fn debug_string(&self) -> String {
+        format!("{:?}", self)
+    }
+    fn sizes(&self) -> (usize, usize) {
+        (<<D as digest::BlockInput>::BlockSize as digest::generic_array::typenum::Unsigned>::to_usize(), <D as Digest>::output_size())
+    }
     fn upd(&mut self, d: &[u8]) {
         Digest::update(self, d)
     }
@@ -153,6 +168,23 @@ pub fn digest_event(out: &mut dyn std::io::Write, alg: &str, n: usize, msg: &[u8
 pub fn digest_event_split(out: &mut dyn std::io::Write, alg: &str, n: usize, msg: &[u8], tag: &str, cfg: &str, split: usize) {
     let r = guarded(|| {
         let mut h = make_hash(alg, n);
+        if split == usize::MAX {
+            // Digest::digest (static one-call form); Debug formatting and the declared sizes must be harmless / consistent
+            // (BlockInput::BlockSize is NOT asserted: no listed property states it - and for the BLAKE types it is the
+            //  output size, 28/32/48/64, rather than the block size; see DESIGN.md A.7)
+            let _ = h.debug_string();
+            let (_bs, os) = h.sizes();
+            assert_eq!(os, out_size(alg, n), "harness: OutputSize table");
+            return h.static_digest(msg);
+        }
+        if split == usize::MAX - 1 {
+            // Digest::chain
+            let cut = msg.len() / 3;
+            let h2 = make_hash(alg, n);
+            let _ = h2;
+            h.upd(&msg[..cut]);
+            return h.chain_fin(&msg[cut..]);
+        }
         if split == 0 || msg.len() < 2 {
             h.upd(msg);
         } else {
@@ -204,7 +236,12 @@ pub fn drive_digests(out: &mut dyn std::io::Write, family: &str, seed: u64, thor
             let n = ns[(li + ai) % ns.len()];
             let m = message(&mut rng, l, (li + ai) as u64);
             // two thirds of the sweep feed the message in one call, one third in two pieces cut at a pseudo-random point
-            let split = if (li + ai) % 3 == 2 { 1 + rng.below(0xffff) as usize } else { 0 };
+            let split = match (li + ai) % 9 {
+                2 | 5 => 1 + rng.below(0xffff) as usize,
+                8 => usize::MAX,
+                7 => usize::MAX - 1,
+                _ => 0,
+            };
             digest_event_split(out, alg, n, &m, "sweep", cfg, split);
         }
         if family == "skein" {
